@@ -9,8 +9,8 @@ ID = "C07"
 BUDGET = {"quick": 1500, "thorough": 60000}
 RULE = ("arrays and objects of length 0..8 with arbitrary JSON elements, reached by a context path, a '../' path, a block "
         "parameter, a block parameter behind '../' over a same-named field (model and crate compared), @root, a literal or a subexpression (lookup); each nested up to 4 deep and mixed with with/if/partials; "
-        "0, 1 or 2 block parameters; bodies print this/@index/@key/@first/@last/@../index and the parameters with "
-        "separators, and the second parameter where its JSON type matters (truthiness, eq with @index/@key, as an array index); oracle = reference renderer (concatenation over the elements in index / key order); non-trivial = "
+        "0, 1 or 2 block parameters; the each opened by {{#each}} or by an else-chain tag ({{else each c as |v k|}}); bodies print this/@index/@key/@first/@last/@../index and the parameters with "
+        "separators, the family of the Lean theorem C07.each_block_renders_body_per_element (any text, {{#each v}}A{{/each}} over an array of 0..40 arbitrary elements, any text; exact closed form), and the second parameter where its JSON type matters (truthiness, eq with @index/@key, as an array index); oracle = reference renderer (concatenation over the elements in index / key order); non-trivial = "
         "at least one iteration happened; distinct by output")
 DEFINITE_FLOOR = 0.6
 
@@ -113,6 +113,15 @@ def generate(rng, n, tier="quick"):
             ast = [each_node(r, {"a": "path", "ups": 0, "root": False, "segs": ["arr2"]}, 2)]
         else:
             ast = [each_node(r, {"a": "path", "ups": 0, "root": False, "segs": [r.pick(["s", "nope", "w"])]}, 0)]
+        if prov in ("path", "root", "sub", "lit") and r.chance(0.3) and ast[0]["t"] == "each" and ast[0].get("else") is None:
+            # the same each OPENED BY AN ELSE-CHAIN TAG ({{#if f}}..{{else each c as |v k|}}..): iteration variables and block
+            # parameters as for {{#each}}
+            e0 = ast[0]
+            first = r.pick([("if", {"a": "path", "ups": 0, "root": True, "segs": ["nope"]}), ("each", {"a": "path", "ups": 0, "root": True, "segs": ["nope"]}),
+                            ("with", {"a": "path", "ups": 0, "root": True, "segs": ["nope"]})])
+            ast = [{"t": "chain", "links": [(first[0], first[1], [{"t": "text", "s": "no"}], None), ("each", e0["arg"], e0["body"], list(e0.get("bp") or []))],
+                    "else": ([{"t": "text", "s": "<none>"}] if r.chance(0.5) else None)}]
+            prov = prov + "+chain"
         ast = [{"t": "text", "s": "["}] + ast + [{"t": "text", "s": "]"}]
         src = ref.print_nodes(r.fork("p"), ast)
         if src is None:
@@ -121,6 +130,18 @@ def generate(rng, n, tier="quick"):
         case["id"] = "%s-%06d" % (ID, i)
         oc = ref_outcome({"main": ast}, "main", data, False, lambda s: s)
         out.append((case, {"prov": prov, "oracle": list(oc), "len": len(c)}))
+    # the family of the Lean theorem C07.each_block_renders_body_per_element: L ++ {{#each v}}A{{/each}} ++ R for any text L that may
+    # stand before a tag, any text R without '{{' and any array under v (length 0..40, arbitrary elements): one A per element
+    from .C03 import thm_left, thm_right
+    for k in range(150 if tier != "thorough" else 1500):
+        r = rng.fork("thm%d" % k)
+        L, R = thm_left(r), thm_right(r)
+        nel = r.pick([0, 1, 2, 3, 5, 8, 17, 40])
+        arr = [r.pick([None, 0, "", "x", [], {"a": 1}, True, [1]]) for _ in range(nel)]
+        src = L + "{{#each v}}A{{/each}}" + R
+        case = session({"escape": "none"}, [("main", src)], {"api": "render", "name": "main"}, {"v": arr})
+        case["id"] = "%s-thm%04d" % (ID, k)
+        out.append((case, {"prov": "thm", "oracle": ["must", L + "A" * nel + R], "len": nel}))
     return out
 
 
